@@ -255,6 +255,7 @@ def run(ctx):
     rule6(ctx, prog, flows)
     rule7(ctx, prog, flows, all_sites)
     rule8(ctx, prog, flows)
+    working_graph_single_edge(ctx, prog, flows, "R-C20-15")
     rule12(ctx, prog, flows)
     rule13(ctx, prog, flows)
     from props.c11 import subset_keyed_map_lookups
@@ -360,6 +361,33 @@ def rule8(ctx, prog, flows):
     for i, c in enumerate(calls):
         ok, over = single_edges_specs(b, fl, c)
         ctx.require(ok, "R-C20-8", "specs|%d" % i, "the result is built with the source's specs and multi_edges = false", "to_single_edges can return a graph whose specs still say multi_edges = true (overrides %s): Louvain's working graph is then a multigraph and its get_edge(..).unwrap() panics with WrongMethod" % over, loc_str(c.span))
+
+
+def working_graph_single_edge(ctx, prog, flows, rid):
+    """the other premise of the same reviewed reason: convert_graph hands EVERY multi-edge input to to_single_edges.  In
+    the world `specs.multi_edges == true` (the false outcomes of its tests deleted from the CFG) the function's return is
+    unreachable once the to_single_edges call is removed too -- a second condition on that call (`&& weighted`) leaves
+    a way round it, and Louvain's working graph is then a multigraph on which get_edge(..).unwrap() panics."""
+    from guard import Guards
+
+    ctx.rule(rid, "convert_graph passes every multi-edge input through to_single_edges (must-pass-through in the world specs.multi_edges == true)")
+    g = Guards(prog, flows)
+    n = 0
+    for cb in prog.find("louvain::convert_graph"):
+        calls = [t for t in cb.calls() if t.callee and t.callee.short.endswith("Graph::to_single_edges")]
+        sw = g.spec_switches(cb, "multi_edges")
+        if not calls or not sw:
+            ctx.anchor_lost(rid, "the to_single_edges call under a test of specs.multi_edges in convert_graph")
+            return
+        n += 1
+        dele = [(bb, succs[False]) for (bb, succs) in sw if succs.get(False) is not None]
+        for t in calls:
+            dele += [(p_, t.bb) for p_ in cb.pred(t.bb)]
+        reach = cb.reach_avoiding_edges(dele, 0)
+        rets = [r_ for r_ in cb.return_blocks() if r_ in reach]
+        ctx.require(not rets, rid, "collapse-always|%d" % n, "on a multi-edge input the return of convert_graph is reached only through to_single_edges",
+                    "convert_graph can return for a graph with specs.multi_edges == true without having called to_single_edges (the call depends on a further condition): Louvain's working graph keeps multi_edges = true and get_edge(u, v).unwrap() in the local-moving phase panics with WrongMethod", loc_str(calls[0].span))
+    ctx.floor(rid, "convert_graph_bodies", n, 1)
 
 
 def rule7(ctx, prog, flows, all_sites):
